@@ -248,6 +248,32 @@ def sampling(tier, rng, rep):
                 if np.max(np.abs(R.proj_data[idx] - u.proj_data)) > 1e-9 or np.max(np.abs(R.aux_data[idx] - u.aux_data)) > 1e-9:
                     rep.fail("pairwise_entries", f"index {idx}", inp)
             rep.case(key=(t, mode), nontrivial=(len(outer) >= 2 or 1 in outer), sample=inp if t == 0 else None)
+        # circle parameters (centre, radius, angle pair) of a composite of segments vs unit by unit, both conformal models
+        kk = int(rng.integers(2, 6))
+
+        def klp():
+            v = rng.normal(size=(kk, 2))
+            return v / np.linalg.norm(v, axis=-1, keepdims=True) * rng.uniform(0.1, 0.95, size=(kk, 1))
+        ka, kb = klp(), klp()
+        if t % 2 == 0:
+            # targeted: chords crossing the positive x-axis far from the origin: seen from the circle's centre the two
+            # endpoint angles straddle the +-pi branch cut, so several units get reordered by the arc rule
+            ka = np.stack([rng.uniform(0.5, 0.85, kk), rng.uniform(0.1, 0.4, kk)], axis=-1)
+            kb = np.stack([rng.uniform(0.5, 0.85, kk), -rng.uniform(0.1, 0.4, kk)], axis=-1)
+        Sg = h.Segment(h.Point(ka.copy(), model="klein"), h.Point(kb.copy(), model="klein"))
+        for model in ("poincare", "halfspace"):
+            for deg in (True, False):
+                inp = {"klein_a": ka.tolist(), "klein_b": kb.tolist(), "model": model, "degrees": deg}
+
+                def cp():
+                    c, r, th = Sg.circle_parameters(model=model, degrees=deg)
+                    for j in range(kk):
+                        cj, rj, tj = h.Segment(h.Point(ka[j].copy(), model="klein"), h.Point(kb[j].copy(), model="klein")).circle_parameters(model=model, degrees=deg)
+                        sc = 1 + abs(rj)
+                        if np.max(np.abs(c[j] - cj)) > 1e-9 * sc or abs(r[j] - rj) > 1e-9 * sc or np.max(np.abs(th[j] - tj)) > 1e-9 * (360 if deg else 7):
+                            rep.fail("circle_parameters_per_unit", f"unit {j}: angles {th[j]} vs {tj}", inp); return
+                rep.attempt("circle_parameters_run", inp, cp)
+                rep.case(key=(t, "cp", model, deg), nontrivial=True)
         # fixed points of a composite of conjugated standard isometries, unit by unit
         k = int(rng.integers(2, 5))
         isos = []
